@@ -585,12 +585,13 @@ def name_sites(w, desc):
     return sites
 
 
-def near_miss_cases(rng, w, desc, n_other, n_positive):
+def near_miss_cases(rng, w, desc, n_domain, n_other, n_positive, covered):
     """near misses of every name the text uses.  A variant that is not declared in its place must be REJECTED; a variant
     that happens to be another declared name is judged by the spec alone (expect None); a spelling in another letter
     case must be ACCEPTED with the same result (expected: what the unchanged description says).
-    All variants of the domain name are kept; the other sites are sampled (stratified by site kind x variation)."""
-    neg, pos = {}, []
+    Sampled: n_domain variants of the domain name, n_other of the other sites, n_positive case variants, always taking
+    the (site kind, variation) combinations that the run has covered least so far (covered: the run's counter)."""
+    neg, pos = {}, {}
     for site, name, declared, put, avoid, klass in name_sites(w, desc):
         for vkind, v in near_misses(rng, name):
             if v in avoid:
@@ -604,24 +605,22 @@ def near_miss_cases(rng, w, desc, n_other, n_positive):
         for vkind, v in case_variants(rng, name):
             d = copy_desc(desc)
             put(d, v)
-            pos.append(("casevariant-%s-%s" % (site, vkind), d, "same", None))
-    out = []
-    for key in [k for k in neg if k[0] == "domain"]:
-        out += neg.pop(key)
-    keys = list(neg)
-    rng.shuffle(keys)
-    while keys and n_other > 0:
-        for k in list(keys):
-            if n_other <= 0:
-                break
-            out.append(neg[k].pop(rng.randrange(len(neg[k]))))
-            n_other -= 1
-            if not neg[k]:
+            pos.setdefault((site, "case-" + vkind), []).append(("casevariant-%s-%s" % (site, vkind), d, "same", None))
+
+    def take(pool, keys, n):
+        out = []
+        while keys and n > 0:
+            keys.sort(key=lambda k: (covered.get(k, 0), rng.random()))
+            k = keys[0]
+            out.append(pool[k].pop(rng.randrange(len(pool[k]))))
+            covered[k] = covered.get(k, 0) + 1
+            n -= 1
+            if not pool[k]:
                 keys.remove(k)
-    rng.shuffle(pos)
-    dom_pos = [c for c in pos if c[0].startswith("casevariant-domain-")][:1]
-    out += dom_pos + [c for c in pos if c not in dom_pos][:n_positive]
-    return out
+        return out
+    return (take(neg, [k for k in neg if k[0] == "domain"], n_domain)
+            + take(neg, [k for k in neg if k[0] != "domain"], n_other)
+            + take(pos, list(pos), n_positive))
 
 
 # ------------------------------------------------------------------------------------------------ the run
@@ -629,6 +628,7 @@ def build_generated(rng, tier):
     """returns list of worlds: {domain_text, cases: [{text, expect, kind, klass, nontrivial, desc}]}"""
     n_worlds = 50 if tier == "quick" else 250
     worlds = []
+    covered = {}                                           # (site kind, variation) -> near-miss cases so far
     for wi in range(n_worlds):
         w = gen_domain(rng)
         dtext = G.render(w.domain_tree(domain_name(w)), rng, noise=False)
@@ -655,8 +655,8 @@ def build_generated(rng, tier):
                 ctext = G.render(problem_tree(cd), rng, noise=False)
                 cases.append({"text": ctext, "expect": "raised", "kind": "corrupt-" + kind, "klass": klass,
                               "nontrivial": True, "desc": cd})
-            n_other, n_pos = (14, 3) if tier == "quick" else (60, 8)
-            for kind, cd, expect, klass in near_miss_cases(rng, w, desc, n_other, n_pos):
+            n_dom, n_other, n_pos = (4, 8, 2) if tier == "quick" else (99, 24, 4)
+            for kind, cd, expect, klass in near_miss_cases(rng, w, desc, n_dom, n_other, n_pos, covered):
                 ctext = G.render(problem_tree(cd), rng, noise=False)
                 cases.append({"text": ctext, "expect": expected_dump(desc) if expect == "same" else expect, "kind": kind,
                               "klass": klass, "nontrivial": True, "desc": cd})
